@@ -28,6 +28,8 @@ ASSUMPTIONS = [
 P = [0.01, 0.1, 0.5, 0.75, 0.9, 0.95, 0.99, 0.999]
 NBIG = [100, 1000, 10000, 1000000]
 NQ = [2, 3, 4, 5, 6, 7, 10, 15, 21, 30, 45, 59, 60]
+PX = [0.9999, 0.99999, 0.999999, 1 - 1e-7]
+NX = [2, 3, 4, 5, 10, 30]
 TOL_C = 1e-10  # on a probability
 
 
@@ -99,6 +101,10 @@ def ncls(n):
     return "n2-9" if n < 10 else "n10-60" if n <= 60 else "n%g" % n
 
 
+def pcls(p):
+    return "/px" if p > 0.9995 else ""
+
+
 # ------------------------------------------------------------------ ksingle
 def check_ksingle(p, c, ns, res):
     from pyyeti import stats
@@ -110,7 +116,7 @@ def check_ksingle(p, c, ns, res):
     ks = {}
     for n in ns:
         k = stats.ksingle(p, c, n)
-        res.ev("ksingle/%s/%s" % ("c>=.5" if c >= 0.5 else "c<.5", ncls(n)))
+        res.ev("ksingle/%s/%s%s" % ("c>=.5" if c >= 0.5 else "c<.5", ncls(n), pcls(p)))
         if not np.isfinite(k):
             msgs.append((n, "ksingle(%g,%g,%d) = %r" % (p, c, n, k)))
             continue
@@ -163,9 +169,9 @@ def check_kdouble(p, c, ns, res):
     ks = {}
     for n in ns:
         k = stats.kdouble(p, c, n)
-        res.ev("kdouble/%s/%s" % ("c>=.5" if c >= 0.5 else "c<.5", ncls(n)))
+        res.ev("kdouble/%s/%s%s" % ("c>=.5" if c >= 0.5 else "c<.5", ncls(n), pcls(p)))
         if not np.isfinite(k) or k <= 0:
-            msgs.append((n, "kdouble(%g,%g,%d) = %r" % (p, c, n, k)))
+            msgs.append((n, "kdouble(%r,%g,%d) = %r" % (p, c, n, float(k))))
             continue
         k = float(k)
         ks[n] = k
@@ -386,6 +392,12 @@ def shards(tier, seed):
             for blk in (ns[: len(ns) // 2], ns[len(ns) // 2 :]):
                 out.append(dict(part=part, p=p, c=c, ns=blk))
         out.append(dict(part="order_n", p=p, c=c))
+    # extreme coverage (up to seven nines) at small n: the Newton iteration of kdouble and the non-central t
+    # quantile work far out in the tails
+    for p in PX:
+        for c in (0.1, 0.5, 0.9, 0.99):
+            out.append(dict(part="ksingle", p=p, c=c, ns=NX))
+            out.append(dict(part="kdouble", p=p, c=c, ns=NX))
     for c in P:
         out.append(dict(part="order_pc", c=c, ns=ns))
     out.append(dict(part="monotone", ns=ns))
@@ -440,4 +452,9 @@ def _m_low_coverage(case, msg):
     return case.get("part") in ("order_n", "order_r") and "order_stats('n'" in msg and "raised ValueError" in msg and "different signs" in msg
 
 
-FINDING_MATCHERS = {"C20-order-n-already-met-at-r": _m_low_coverage}
+def _m_kdouble_nan(case, msg):
+    """Newton iteration of _getr diverges (division by an underflowed derivative): only n = 2 with p >= 1 - 1e-7"""
+    return case.get("part") == "kdouble" and case.get("key") == 2 and case.get("p", 0) >= 1 - 1e-7 and msg.endswith("= nan")
+
+
+FINDING_MATCHERS = {"C20-order-n-already-met-at-r": _m_low_coverage, "C20-kdouble-seven-nines-n2": _m_kdouble_nan}
